@@ -40,10 +40,7 @@ impl TargetWatcher {
                     for path in paths {
                         match watcher.watch(path.as_path().into(), RecursiveMode::Recursive) {
                             Ok(_) => {}
-                            Err(notify::Error {
-                                kind: ErrorKind::PathNotFound,
-                                ..
-                            }) => {
+                            Err(e) if is_path_not_found(&e) => {
                                 log::warn!(
                                     "{} - Skipping watch on non-existing path: {}",
                                     target_id,
@@ -116,6 +113,15 @@ impl TargetWatcher {
             watcher_config,
         )
         .with_context(|| "Error creating watcher")
+    }
+}
+
+/// On Linux, inotify reports a missing path as an I/O error rather than as `PathNotFound`.
+fn is_path_not_found(e: &notify::Error) -> bool {
+    match &e.kind {
+        ErrorKind::PathNotFound => true,
+        ErrorKind::Io(io_error) => io_error.kind() == std::io::ErrorKind::NotFound,
+        _ => false,
     }
 }
 
